@@ -357,6 +357,23 @@ package oauth2
 // Prefixed strategy: validation strips exactly its own prefix and then applies the rules above.
 //@ func (*HMACSHAStrategy).getPrefix
 //@   pure
+//@ func (*HMACSHAStrategy).setPrefix
+//@   ensures [C06.prefix-added] (token == "" ==> result == "") && (token != "" ==> result == h.getPrefix(part) + token)
+//@ func (*HMACSHAStrategy).GenerateAccessToken
+//@   requires h != nil && h.HMACSHAStrategyUnPrefixed != nil && h.HMACSHAStrategyUnPrefixed.Enigma != nil && held[addr(h.HMACSHAStrategyUnPrefixed.Enigma.Mutex)] == 0 && (forall m2 V :: held[m2] != 0 ==> mrank(m2) < mrank(addr(h.HMACSHAStrategyUnPrefixed.Enigma.Mutex)))
+//@   modifies acq, held
+//@   ensures [C19.locks-released] held == old(held)
+//@   ensures [C06.prefixed-generate-shape] err == nil ==> token != "" && (exists t string :: token == h.getPrefix("at") + t && signature == hmacsig(t) && authentic(h.HMACSHAStrategyUnPrefixed.Enigma, t))
+//@ func (*HMACSHAStrategy).GenerateRefreshToken
+//@   requires h != nil && h.HMACSHAStrategyUnPrefixed != nil && h.HMACSHAStrategyUnPrefixed.Enigma != nil && held[addr(h.HMACSHAStrategyUnPrefixed.Enigma.Mutex)] == 0 && (forall m2 V :: held[m2] != 0 ==> mrank(m2) < mrank(addr(h.HMACSHAStrategyUnPrefixed.Enigma.Mutex)))
+//@   modifies acq, held
+//@   ensures [C19.locks-released] held == old(held)
+//@   ensures [C06.prefixed-generate-shape] err == nil ==> token != "" && (exists t string :: token == h.getPrefix("rt") + t && signature == hmacsig(t) && authentic(h.HMACSHAStrategyUnPrefixed.Enigma, t))
+//@ func (*HMACSHAStrategy).GenerateAuthorizeCode
+//@   requires h != nil && h.HMACSHAStrategyUnPrefixed != nil && h.HMACSHAStrategyUnPrefixed.Enigma != nil && held[addr(h.HMACSHAStrategyUnPrefixed.Enigma.Mutex)] == 0 && (forall m2 V :: held[m2] != 0 ==> mrank(m2) < mrank(addr(h.HMACSHAStrategyUnPrefixed.Enigma.Mutex)))
+//@   modifies acq, held
+//@   ensures [C19.locks-released] held == old(held)
+//@   ensures [C06.prefixed-generate-shape] err == nil ==> token != "" && (exists t string :: token == h.getPrefix("ac") + t && signature == hmacsig(t) && authentic(h.HMACSHAStrategyUnPrefixed.Enigma, t))
 //@ func (*HMACSHAStrategy).trimPrefix
 //@   ensures [C06.prefix-stripped] result == strings.TrimPrefix(token, h.getPrefix(part))
 //@ func (*HMACSHAStrategy).ValidateAccessToken
@@ -636,3 +653,11 @@ package oauth2
 //@   ensures [C01.used-code-stays-used] old(code_exists[sig0] && !code_active[sig0]) ==> code_exists[sig0] && !code_active[sig0]
 //@   ensures [C04.dead-family-stays-dead] old(deadrid(rid0)) ==> deadrid(rid0)
 //@   ensures [C08.revoked-grant-stays-revoked] old(deadrid(rid0)) ==> deadrid(rid0)
+
+// ---------------------------------------------------------------- C10: no handler of this package lets an unauthenticated request through
+//@ func (*AuthorizeExplicitGrantHandler).CanSkipClientAuth
+//@   ensures [C10.code-grant-never-skips-auth] !result
+//@ func (*RefreshTokenGrantHandler).CanSkipClientAuth
+//@   ensures [C10.refresh-grant-never-skips-auth] !result
+//@ func (*ResourceOwnerPasswordCredentialsGrantHandler).CanSkipClientAuth
+//@   ensures [C10.password-grant-never-skips-auth] !result
